@@ -783,8 +783,71 @@ func (c *Ctx) c14Cyclic(n int) (lines, impl []string) {
 	return
 }
 
+// c14CyclicMixed: object graphs of slices and maps of every key kind (string, int, float64, bool) whose elements are
+// any, linked at random (self-loops, cycles through several kinds): rendering terminates and cuts every cycle. Only
+// termination is checked here (the announced case is the replay if the process dies of a stack overflow).
+func (c *Ctx) c14CyclicMixed(n int) {
+	r := c.RNG
+	keyOf := func(kind, j int) goat.Value {
+		switch kind {
+		case 1:
+			return goat.String(fmt.Sprintf("k%d", j))
+		case 2:
+			return goat.Int(j)
+		case 3:
+			return goat.Float64(float64(j) + 0.5)
+		}
+		return goat.Bool(j%2 == 0)
+	}
+	keyType := []goat.Type{0, goat.TypeString, goat.TypeInt32, goat.TypeFloat64, goat.TypeBool}
+	for it := 0; it < n; it++ {
+		k := 1 + r.Intn(4)
+		pool := make([]goat.Value, k)
+		kinds := make([]int, k)
+		var descr []string
+		for i := range pool {
+			kinds[i] = r.Intn(5) // 0 slice, 1..4 map by key kind
+			if kinds[i] == 0 {
+				pool[i] = goat.NewSlice(goat.TypeNil, []goat.Value{goat.Int(i), goat.Int(i + 1)})
+			} else {
+				pool[i] = goat.NewMap(keyType[kinds[i]], goat.TypeNil, nil)
+				pool[i].Set(keyOf(kinds[i], 0), goat.Int(i))
+			}
+		}
+		for e := 1 + r.Intn(2*k); e > 0; e-- {
+			i, t, j := r.Intn(k), r.Intn(k), r.Intn(2)
+			if kinds[i] == 0 {
+				pool[i].Set(goat.Int(j), pool[t])
+			} else {
+				pool[i].Set(keyOf(kinds[i], j), pool[t])
+			}
+			descr = append(descr, fmt.Sprintf("c%d(kind %d)[%d] = c%d", i, kinds[i], j, t))
+		}
+		top := r.Intn(k)
+		line := fmt.Sprintf("print c%d of: %s", top, strings.Join(descr, "; "))
+		c.Pending(map[string]any{"cyclic_mixed_containers": line})
+		done := make(chan string, 1)
+		go func() { done <- pool[top].String() }()
+		select {
+		case <-done:
+		case <-time.After(60 * time.Second):
+			c.Rep.Violate(Violation{Kind: "crash", Cut: "render", Input: line, Impl: "String() did not return within 60s", Oracle: "terminates"})
+			c.PendingDone()
+			return
+		}
+		c.PendingDone()
+		c.Rep.Oracle["cyclic-mixed-terminates"]++
+		c.Rep.Count("cyclic-host-mixed-containers")
+	}
+}
+
 func runC14(c *Ctx) error {
 	c.c14TypeBitsWitness()
+	if c.Thorough() {
+		c.c14CyclicMixed(20000)
+	} else {
+		c.c14CyclicMixed(400)
+	}
 	{
 		nc := 300
 		if c.Thorough() {
